@@ -5,6 +5,7 @@ import io
 import json
 import os
 import shutil
+import sys
 import tempfile
 import random
 import re
@@ -38,7 +39,7 @@ REQUIRED = {"events.grammar": {"quick": 600, "thorough": 30000}, "events.all_for
             "progress3.chars": {"quick": 500, "thorough": 25000}, "json.readback_file": {"quick": 100, "thorough": 300},
             "factory.own_file_has_own_report": {"quick": 150, "thorough": 6000},
             "factory.formatter_without_file_writes_stdout": {"quick": 50, "thorough": 2000}}
-REQUIRED_SEEN = {"formatter_active": BUILTINS, "pretty_step_line_length": ["at_a_multiple_of_the_terminal_width", "next_to_a_multiple"]}
+REQUIRED_SEEN = {"environment_habit": ["raising_testrun_cleanup"], "config_file_outfiles": ["given", "none"], "formatter_active": BUILTINS, "pretty_step_line_length": ["at_a_multiple_of_the_terminal_width", "next_to_a_multiple"]}
 NSHARDS = {"quick": 16, "thorough": 16}
 DOT = {"passed": ".", "failed": "F", "error": "E", "hook_error": "H", "skipped": "S", "untested": "_",
        "untested_pending": "p", "untested_undefined": "u", "undefined": "U", "pending": "P", "pending_warn": "p"}
@@ -713,9 +714,62 @@ def pretty_on_a_terminal(lab, mon, rng):
             mon.seen("pretty_step_line_length", "at_a_multiple_of_the_terminal_width" if L % 80 == 0 else "next_to_a_multiple")
 
 
+def config_file_formatters(mon, rng):
+    """Formatters named in behave.ini WITHOUT outfiles (each gets '<format>.output' next to the configuration file, as documented) plus
+    -f/-o pairs on the command line: the real factory hands every formatter the stream of ITS file."""
+    import shutil
+    from behave.configuration import Configuration
+    from behave.formatter._registry import make_formatters as real_make_formatters
+    from behave.model import ScenarioOutline
+    from behave.tag_expression import TagExpressionProtocol as TEP
+    file_formats = rng.sample(["json", "plain", "progress2", "rerun", "progress3"], rng.randint(1, 3))
+    n_out = rng.choice([0, 0, len(file_formats)])
+    cmd_formats = rng.sample(["plain", "json.pretty", "progress"], rng.randint(0, 2))
+    root = tempfile.mkdtemp(prefix="bvm-fmtcfg-")
+    cwd, home = os.getcwd(), os.environ.get("HOME")
+    saved_schema = ScenarioOutline.annotation_schema
+    out, err = sys.stdout, sys.stderr
+    case = {"behave.ini": {"format": file_formats, "outfiles": ["file%d.txt" % j for j in range(n_out)]},
+            "args": [a for j, f in enumerate(cmd_formats) for a in ("-f", f, "-o", "cmd%d.txt" % j)]}
+    mon.case(("config-file-formatters", tuple(file_formats), n_out, tuple(cmd_formats)), True)
+    try:
+        os.environ["HOME"] = root
+        os.chdir(root)
+        with open("behave.ini", "w") as fh:
+            fh.write("[behave]\nformat = %s\n" % "\n    ".join(file_formats))
+            if n_out:
+                fh.write("outfiles = %s\n" % "\n    ".join(case["behave.ini"]["outfiles"]))
+        sys.stdout = sys.stderr = io.StringIO()
+        try:
+            config = Configuration(list(case["args"]))
+            fmts = real_make_formatters(config, config.outputs)
+            # (a formatter may open its file lazily -- rerun does: the opener it was given says where it will write)
+            got = [(f.name, None if getattr(f.stream_opener, "name", None) is None else os.path.relpath(str(f.stream_opener.name), root)) for f in fmts]
+            for f in fmts:
+                f.close()
+        except Exception as ex:
+            got = repr(ex)
+        want = [(f, ("file%d.txt" % j) if n_out else "%s.output" % f) for j, f in enumerate(file_formats)] + \
+               [(f, "cmd%d.txt" % j) for j, f in enumerate(cmd_formats)]
+        mon.seen("config_file_outfiles", "given" if n_out else "none")
+        mon.check("factory.config_file_formatters_write_their_own_files", got == want, lambda: dict(case=case, got=got, want=want))
+    finally:
+        sys.stdout, sys.stderr = out, err
+        os.chdir(cwd)
+        if home is None:
+            os.environ.pop("HOME", None)
+        else:
+            os.environ["HOME"] = home
+        ScenarioOutline.annotation_schema = saved_schema
+        TEP.use(TEP.DEFAULT)
+        shutil.rmtree(root, ignore_errors=True)
+
+
 def run(spec, mon):
     from ..lab.inproc import RunLab
     lab = RunLab()
+    for _ in range(20 if spec.get("tier", "quick") == "quick" else 400):
+        config_file_formatters(mon, random.Random(spec["seed"] * 7919 + _))
     tier = spec.get("tier", "quick")
     rng = random.Random(spec["seed"])
     for _ in range(40 if tier == "quick" else 1500):
@@ -744,7 +798,22 @@ def run(spec, mon):
             ks = [k for k, h in enumerate(obs0.hooks) if h[0].endswith("_step")] or list(range(len(obs0.hooks)))
             if ks:
                 case = dict(case, hook_fault={"k": rng.choice(ks), "exc": "Exception"})
-        run_case(lab, mon, case, names, sample=(i == 0 and spec["shard"] == 0))
+        lab.extra_hook_plugins = None
+        if i % 5 == 3 and not case["cfg"]["dry_run"]:
+            # an environment whose before_all registers a clean-up for the end of the test run -- and that clean-up raises: the run
+            # has failed, the reports are finished like those of any other run (every formatter gets its close event)
+            def testrun_cleanup(state, context, name, elem, tag):
+                if name == "before_all":
+                    def release_resources():
+                        raise RuntimeError("test-run clean-up could not release its resources")
+                    context.add_cleanup(release_resources)
+            lab.extra_hook_plugins = [testrun_cleanup]
+            case = dict(case, raising_cleanup="registered in before_all for the end of the test run")
+            mon.seen("environment_habit", "raising_testrun_cleanup")
+        try:
+            run_case(lab, mon, case, names, sample=(i == 0 and spec["shard"] == 0))
+        finally:
+            lab.extra_hook_plugins = None
         if i % 3 == 2:
             # the same run through the real formatter factory: output files for a prefix of the formatter list only
             names2 = [rng.choice(["json", "plain", "progress", "progress2", "progress3", "json.pretty", "rerun"])
